@@ -1,5 +1,5 @@
 #!/usr/bin/env python3
-"""usage: tools/benign_store.py <results.log> : copies the evaluated property-preserving changes of /tmp/ben_N_out into
+"""usage: tools/benign_store.py <results.log> [<source prefix, default /tmp/ben_> <tag, default b>] : copies the evaluated property-preserving changes of /tmp/ben_N_out into
 /verif/benign/<Cxx>-b<N>-<k>/ (patch.diff unless larger than 300 kB, notes.md, result.json) and prints the table of DESIGN 9.9."""
 import json
 import os
@@ -7,6 +7,8 @@ import re
 import shutil
 import sys
 
+PREFIX = sys.argv[2] if len(sys.argv) > 2 else "/tmp/ben_"
+TAG = sys.argv[3] if len(sys.argv) > 3 else "b"
 rows = {}
 for line in open(sys.argv[1]):
     m = re.match(r"\[(\d+)\] BENIGN (C\d\d) change_(\d+) seed=(\d+) exit=(\d+) violations=(\d+) tests=\[(.*?)\] first=(\S*) ::", line)
@@ -17,8 +19,8 @@ for line in open(sys.argv[1]):
                                                           "repo_tests": tests})
 out = []
 for (pid, n, k), runs in sorted(rows.items()):
-    src = "/tmp/ben_%d_out" % n
-    d = "/verif/benign/%s-b%d-%d" % (pid, n, k)
+    src = "%s%d_out" % (PREFIX, n)
+    d = "/verif/benign/%s-%s%d-%d" % (pid, TAG, n, k)
     os.makedirs(d, exist_ok=True)
     diff = os.path.join(src, "change_%d.diff" % k)
     if os.path.exists(diff):
@@ -38,11 +40,11 @@ for (pid, n, k), runs in sorted(rows.items()):
     old = {}
     if os.path.exists(os.path.join(d, "result.json")):
         old = json.load(open(os.path.join(d, "result.json")))
-    res = {"property": pid, "source": "independent sub-agent given only the property text" if n != 8 else "builder (the sub-agent for C17/C18 was stopped by the content filter)",
+    res = {"property": pid, "source": "independent sub-agent given only the property text" if not (n == 8 and TAG == "b") else "builder (the sub-agent for C17/C18 was stopped by the content filter)",
            "first_evaluation": old.get("first_evaluation", runs[0]), "latest_evaluation": runs[-1]}
     json.dump(res, open(os.path.join(d, "result.json"), "w"), indent=1)
     first, last = res["first_evaluation"], res["latest_evaluation"]
     verdict = "quiet" if first["violations"] == 0 and first["exit"] == 0 else ("ALARM (%s) -> %s" % (first["first_clause"], "quiet after the correction" if last["violations"] == 0 and last["exit"] == 0 else "still raised"))
-    out.append("| %s-b%d-%d | %s | %s |" % (pid, n, k, title[:150].replace("|", "/"), verdict))
+    out.append("| %s-%s%d-%d | %s | %s |" % (pid, TAG, n, k, title[:150].replace("|", "/"), verdict))
 print("| change | what it does | check of the property |\n|---|---|---|")
 print("\n".join(out))
